@@ -31,8 +31,10 @@ CHECKS = {
                 "shift bytes across a field boundary, swap look-alike fields) x attacker effort (leave hashes, recompute the "
                 "entry hash, recompute the whole chain and Merkle roots without keys) x position class (genesis, first of "
                 "block, mid block, last before grounding, grounding, after grounding, last), and delete / duplicate / swap / "
-                "insert / replace-with-foreign / splice / cut of whole entries. TLC proves on the design that everything but a "
-                "suffix cut is rejected by the model of validation.go. Every case is then executed on a real log (block "
+                "insert / replace-with-foreign / splice / cut of whole entries; plus logs re-signed by a key holder with one "
+                "defect (dropped entry / grounding / genesis, wrong Merkle root, forged root signature, Ed25519-only rewrite) "
+                "that bind the grounding checks. TLC proves on the design that everything but a suffix cut is rejected by "
+                "the model of validation.go. Every case is then executed on a real log (block "
                 "size 1000, >= 2 groundings, written by the real middleware) for the binary and JSON encodings, plus random "
                 "bit flips and mid-entry truncations of the encoded bytes; the repo's decoder + Validator (and tool.Verify) "
                 "give the verdict and TLC compares it with the model's. Serializer round trips Decode(Encode(e)) = e are "
@@ -86,7 +88,9 @@ def run_c26(ctx):
     if not ctx.quick():
         ctx.mc("AuditLogMC", "AuditLog.MCThorough.cfg", workers=8, timeout=2400)
         ctx.mc("AuditLogMC", "AuditLog.MC3.cfg", workers=8, timeout=2400)
-        ctx.mc("AuditLogMC", "AuditLog.MC23.cfg", workers=8, timeout=3000)
+        ctx.mc("AuditLogMC", "AuditLog.MC23.cfg", workers=8, timeout=2400)
+        # (AuditLog.MC23full.cfg - 2 threads x 3 calls with free outcomes, 913 127 states, 6 min on 8 idle
+        #  cores - is kept for manual runs; it passed when this module was built)
     vlib.write_ndjson(ctx.path("kinds.ndjson"), kinds)
 
     # 2. drive the real middleware
@@ -223,14 +227,15 @@ def run_c27(ctx):
             if ctx.quick():
                 # quick: every (field, mutation) at every position with hashes left alone; the attacker-effort
                 # modes and the expensive binary framing breakers (type change) are sampled at late positions
-                if c["mode"] != "plain" and c["pos"] in late and rnd.random() < 0.6:
+                if c["kind"] != "forge" and c["mode"] != "plain" and c["pos"] in late and rnd.random() < 0.6:
                     continue
                 if ser == "bin" and c["field"] == "type" and c["pos"] in ("genesis", "grounding") and c["mode"] != "plain":
                     continue
             d = dict(c)
             d.update(ser=ser, permille=0, bit=0)
             cases.append(d)
-        nb = ctx.pick(8, 60)
+        # (a flip in a binary length prefix derails the decoder into GiB-sized allocations: fewer of those)
+        nb = ctx.pick(4, 40) if ser == "bin" else ctx.pick(10, 80)
         for pos in POSITIONS:
             for _ in range(nb):
                 cases.append({"kind": "bytes", "pos": pos, "field": "", "field2": "", "mut": "", "mode": "plain",
